@@ -33,6 +33,14 @@ CHECKS = [
           "Runtime monitor: the provider's answer table (hash -> certificate served, lies included) is judged by mithril-common's verify_certificate_chain through a harness retriever and by mithril-client's verify_chain (feature unstable: cold, warm and poisoned-by-earlier-run caches), and by an INDEPENDENT reference validator that walks previous_hash through the same table requiring exactly the conjuncts of the statement (bounded walk => loops detected); accept => reference accepts, honest chains accepted. Tamperings: every single-field edit with/without hash recomputation, adversary with its own keys and genesis key (internally consistent re-signing), links re-targeted to same / previous / NEXT / older epochs, drop, duplicate, loops, wrong certificate for a hash, and 17 fully-signed single-conjunct breaks.",
           "certificate hash / message digest of the working tree used as definitions (C04 judges them); multi-signature validity from the STM verifier (C01 judges it); a chain whose genesis certificate carries altered (unsigned) key/parameter fields satisfies the statement literally and is counted, not reported",
           "runtime monitor: reference validator over the provider answer table (differential) incl. cache histories", "DESIGN.md §2 C03"),
+    check("C04", "mon-wire", "exploration",
+          "Runtime monitor: (a) ~170 single-field mutators per certificate, generated against an exhaustive destructuring of Certificate / metadata / parties / parameters / every SignedEntityType variant / protocol message parts (a new upstream field breaks the harness build => inconclusive), each must change try_compute_hash; (b) protocol messages over the honest value grammar, random pairs and constructed near-collisions (characters moved between adjacent parts, parts dropped/added): equal digest => equal message; (c) Certificate -> CertificateMessage -> JSON text (field order shuffled, whitespace, number re-formatting, float spellings) -> back: same hash, same signed message, same verdict of the certificate verifier on real chains.",
+          "two known findings (signed entity type variant not hashed) printed as KNOWN-FINDING; certificates claiming stakes far above the total are excluded from the verdict comparison (verifier lottery cost)",
+          "runtime monitor: mutation + metamorphic round-trip oracle over generated certificates", "DESIGN.md §2 C04"),
+    check("C05", "mon-wire", "exploration",
+          "Runtime monitor in child processes with a counting global allocator: 72 decoder entry points (from_bytes / from_bytes_hex / TryFrom<&str> / Deserialize of every wire type, JSON messages and their conversions) fed with honest encodings, structure-aware mutations (every length/count field of the legacy layouts set to boundary values, truncation at every offset, splices, CBOR head rewriting, nesting bombs, prefix flips, JSON abuse) and random bytes; outcome classes value / error / PANIC (hook) / ABORT (child exit status, last input persisted before the call) / allocation out of proportion (single request > 16 MiB and > 256x input) / no termination (watchdog); honest values must round-trip. Dev profile = overflow checks on. Thorough adds a release-profile pass; ASan (nightly) and Miri runs are documented in DESIGN §7.",
+          "rustc overflow checks / the harness allocator as sanitizers; ASan, Miri executed manually (commands in DESIGN.md), not part of the registered commands",
+          "runtime monitoring with sanitizing allocator, panic hook and process isolation over mutated encodings", "DESIGN.md §2 C05"),
     check("C06", "mon-stm", "exploration",
           "Runtime monitor: for each generated registration set the aggregate key bytes, total stake and every party's slot are observed through mithril-stm directly, through mithril-common's SignerBuilder over KES-certified fixture signers, and after passing signers and key through their JSON/hex wire forms; observations must be equal across all registration orders (all n! for n<=6, sampled above) and paths, and differ for neighbouring sets. Held on the sets explored.",
           "Blake2b collision resistance; equal-prefix keys are drawn from a pool of a few hundred keys (pairs sharing 2 leading bytes, not more)",
@@ -49,6 +57,10 @@ CHECKS = [
           "Runtime monitor: proofs of the STM registration tree (through the cfg-guarded verif_export), MKTree/MKProof, nested MKMap/MKMapProof and MkSetProof are generated and mutated; the committed root is recomputed by reference trees written in the harness (heap tree with H([0]) padding, own MMR, H(key||root) map leaves), and every proof that verifies is judged semantically: each (position, leaf) / item it claims must be committed. Exhaustive for n = 1..12 (quick) / 1..14 (thorough): every non-empty index subset and every single mutation; pairs of mutations and larger trees sampled. Miri run of the pure-Rust parts documented in DESIGN §7.",
           "Blake2 collision resistance; five encoding-level known findings (no leaf/node domain separation in MKTree/MKMap) are listed in known_findings.json and printed as KNOWN-FINDING",
           "runtime monitor: reference trees + semantic soundness oracle over exhaustively enumerated small proofs and mutations", "DESIGN.md §2 C09"),
+    check("C10", "mon-client", "exploration",
+          "Runtime monitor: the real CardanoImmutableDigester certifies harness-written databases (3-40 trios, identical contents included), the real client (public ClientBuilder, digests and archives served from file://) runs download_and_verify_digests / verify_cardano_database / compute_cardano_database_message + match_message on tampered directories and tampered digest lists for all range forms; oracle = the harness's own sha256 of the final directory per NAME against the certified list; completeness on untouched directories.",
+          "four (+1 thorough-only) known findings printed as KNOWN-FINDING; loopback HTTP and mid-stream network faults not exercised (file:// only)",
+          "runtime monitor: ground-truth (per-name hash) oracle over tampered restored directories", "DESIGN.md §2 C10"),
     check("C11", "mon-proof", "exploration",
           "Runtime monitor: honest responses are produced by the REAL prover services (MithrilProverService, legacy prover) over the aggregator's real sqlite store filled by the real importer from a harness ground-truth chain, signed messages by the real signable builders; 105 tamper classes of proof responses (both formats) and 29 of stake distributions go through the client flow (deserialize, verify, MessageBuilder::compute_*, match_message); accept => every reported item is in the chain at or below the beacon with exactly the reported fields, under one root, and the (root, latest block, offset) triple is the signed one; stake distribution accepted => served map == certified map.",
           "Merkle layer accessors trusted here (C09 judges that layer); legacy beacons restricted to range ends as the signing config produces them; harmless alterations (certified item moved to non_certified, duplicates, unsigned fields) are counted, not reported",
@@ -57,6 +69,10 @@ CHECKS = [
           "Runtime monitor: the real CardanoImmutableDigester / CardanoDatabaseSignableBuilder run on harness-written databases; metamorphic equality (creation order, extra files, files beyond the beacon, cache histories cold/warm/partial/longer/shorter/shared JSON cache) plus a reference root (own sha256 per file + own MMR/Blake2s tree, cross-checked against the repo tree); without cache every single-byte change / removal of a covered file must change the root or error.",
           "sha256/blake2 as primitives; excluded by stated assumption: a second directory named immutable, symlinks, files modified while cached, concurrent use of one cache",
           "runtime monitor: metamorphic + reference-model oracle over generated databases and cache histories", "DESIGN.md §2 C12"),
+    check("C13", "mon-import", "exploration",
+          "Runtime monitor: seeded histories (forward batches, roll-backs to any earlier point / first stored block / range boundary +-1 / before the first stored block, imports with non-monotone targets, restarts = re-opened file-backed sqlite + new connection, pruning) drive the REAL CardanoChainDataImporter, ChainReaderBlockStreamer and sqlite repositories through a chain-sync server model over a fork tree; after every step the tables are compared with a fresh import of the canonical chain to the same target and with an independent specification model, and the roots offered by the real signable builders at every beacon are compared with a node that imported exactly to the beacon.",
+          "the chain-sync model mirrors what PallasChainReader relays (decisions documented in reader.rs, self-checked); five known findings printed as KNOWN-FINDING; targets never above the node's tip",
+          "runtime monitor: recomputation-from-scratch + specification-model oracle over roll-back histories", "DESIGN.md §2 C13"),
     check("C14", "mon-agg", "exploration",
           "History monitor over the REAL aggregator (its own DependenciesBuilder wiring, file-backed sqlite, real state machine/certifier/epoch service/signer registration/signed entity service; doubles only for the outside world): seeded random histories of ticks, epoch changes incl. jumps, new immutables/blocks, partial/late registrations, valid/repeated/invalid/early(buffered) signatures, forced expiry, clean restarts, genesis re-issue; after every event the tables are read through an independent connection and every new certificate row is judged (live open message + quorum of acknowledged valid deliveries, key/parameters recomputed from the logged registrations, parent rule, no double certification, no gap); every stored certificate is verified with the public certificate verifier fed from the aggregator's own message service. Held on the histories explored; evidence lists states/transitions reached.",
           "test doubles for chain observer / immutable observer / digester / block scanner / uploader / snapshotter; clean restarts only (C15 covers crashes); sqlite durability",
@@ -77,6 +93,10 @@ CHECKS = [
           "Runtime monitor over the real ResourcePool with resources tagged by the generation that created them: one atomic global sequence counter stamps acquire call/return, give-back (explicit item / drop / raw), refresh begin/complete and count samples; a happens-before checker asserts (S1) an acquire called after refresh_complete(g) returns a tag >= g, (S2) no resource held twice, (S3) count <= size always, (S4, bounded) blocked callers wake or time out. Levels: exhaustive single-threaded histories (10-operation alphabet up to length 6, pool sizes 1-3), 6.4k random histories, 336 multi-threaded stress runs (2-12 threads, with and without seeded delays at the four cfg-guarded hook points between the pool's critical sections; tens of thousands of distinct refresh-window event orders), wake-up scenarios; thorough adds Miri seeds (distinct replayable interleavings, UB/data-race checking) and a ThreadSanitizer run on an FFI-free build of the same source file.",
           "the prover-level race (compute_cache vs proof requests) is represented by a refresher thread performing exactly the prover's call sequence; S4 is wall-clock based and can only make a run inconclusive",
           "runtime monitor: sequence-stamped event log + happens-before checker under stress, seeded delay hooks, Miri and TSan", "DESIGN.md §2 C18"),
+    check("C19", "mon-client", "exploration",
+          "Runtime monitor: recursive listing (path, size, sha256) of the target directory before and after the real CardanoDatabaseClient::download_unpack on harness-built archives (tar + zstd/gzip served from file://): immutable archives with extra entries (ledger/, volatile/, top-level, nested, out-of-range trios, directories, symlinks, hard links, absolute and .. paths), ancillary archives with unlisted files and every manifest / signature alteration, with and without the ancillary option, faults (truncated archives, absent listed files, blocked moves); oracle: new files must be in-range immutable trios, the client's own markers, or manifest-listed files with matching hash under a manifest whose signature verifies; nothing of a failed ancillary verification may remain.",
+          "ten known findings (immutable archives unpacked in place, temp dir left on abort, manifest hash encoding) printed as KNOWN-FINDING; file:// only",
+          "runtime monitor: before/after directory listing against an allowed-set oracle on crafted archives", "DESIGN.md §2 C19"),
 ]
 
 ALL = [f"C{i:02d}" for i in range(1, 21)]
@@ -108,6 +128,9 @@ def main():
             {"name": "mon-merkle", "path": "harness/mon-merkle", "serves_properties": ["C09"], "kind_free_text": "exhaustive small-tree proof enumeration and mutation against reference trees"},
             {"name": "mon-proof", "path": "harness/mon-proof", "serves_properties": ["C11"], "kind_free_text": "real prover services over sqlite + client verification flow on tampered responses"},
             {"name": "mon-pool", "path": "harness/mon-pool", "serves_properties": ["C18"], "kind_free_text": "resource pool stress with event log + happens-before checker; l3/ = FFI-free workspace for Miri / TSan"},
+            {"name": "mon-wire", "path": "harness/mon-wire", "serves_properties": ["C04", "C05"], "kind_free_text": "certificate mutators / JSON round trips; decoder corpus in child processes with counting allocator"},
+            {"name": "mon-client", "path": "harness/mon-client", "serves_properties": ["C10", "C19"], "kind_free_text": "real mithril-client over file:// served digests and archives; directory ground truth"},
+            {"name": "mon-import", "path": "harness/mon-import", "serves_properties": ["C13"], "kind_free_text": "real chain importer + sqlite repositories driven by a chain-sync server model over a fork tree"},
             {"name": "mon-reg", "path": "harness/mon-reg", "serves_properties": ["C07"], "kind_free_text": "registration submissions with harness-made keys against the three real registration entry points"},
             {"name": "mon-beacon", "path": "harness/mon-beacon", "serves_properties": ["C17"], "kind_free_text": "grid + random evaluation of the beacon selection against an i128 oracle"},
             {"name": "mon-digest", "path": "harness/mon-digest", "serves_properties": ["C12"], "kind_free_text": "real immutable digester on harness-written databases; metamorphic + reference root"},
